@@ -84,15 +84,7 @@ where
   }
 
   fn close_internal(&self) {
-    let pinned_map = self.dispatcher.subscriptions.pin();
-    for (_topic, list_arc) in pinned_map.iter() {
-      let subscribers_snapshot = list_arc.reader.enter();
-      for mailbox_weak in subscribers_snapshot.iter() {
-        if let Some(mailbox_strong) = mailbox_weak.upgrade() {
-          mailbox_strong.disconnect();
-        }
-      }
-    }
+    self.dispatcher.release_sender();
   }
 
   /// Returns `true` if all receivers for this channel have been dropped.
@@ -301,6 +293,7 @@ where
       for topic in topics_to_subscribe {
         new_receiver.subscribe(topic);
       }
+      dispatcher.register_mailbox(&new_receiver.producer_mailbox);
       new_receiver
     } else {
       // If the dispatcher is gone, create a dead receiver.
